@@ -15,8 +15,8 @@ Definition gen_effective (table : list optrow) (s : sources) (d : string) : opti
 Theorem C19_pipeline_order_fact :
   C19Tables.general_source_order = [SrcFile; SrcEnv; SrcCli] /\ C19Tables.backend_source_order = [SrcFile; SrcEnv; SrcCli] /\
   C19Tables.file_merge_order = [SecDefault; SecProfile] /\ C19Tables.cli_repository_selects_backend = true /\
-  C19Tables.config_values_become_parser_defaults = true.
-Proof. exact (conj eq_refl (conj eq_refl (conj eq_refl (conj eq_refl eq_refl)))). Qed.
+  C19Tables.config_values_become_parser_defaults = true /\ C19Tables.env_prefix_is_own_class_name = true.
+Proof. exact (conj eq_refl (conj eq_refl (conj eq_refl (conj eq_refl (conj eq_refl eq_refl))))). Qed.
 Print Assumptions C19_pipeline_order_fact.
 
 (* general options: for every row of the extracted table and all contents of the four external sources in which
